@@ -22,6 +22,23 @@ func init() {
 		}
 		o.def("serverStartsZeroGroupAfterConsumers", "Bool", lbool(okOrder), "server.go: zeroGroup.Start() comes after the shared group, the nodes manager and the dataset manager are registered")
 
+		// the shared group: a slot for every consumer that has a snapshot function (also when its snapshot is
+		// zero bytes), and every slot handed to its consumer on install
+		sg := parseFile("storage/raft/shared_group.go")
+		keeps, visits, demux := false, false, false
+		if fd := funcDecl(sg, "sharedGroup", "snapshot"); fd != nil {
+			keeps = norm(fd.Body) == "{varerrerrorproxySnapshots:=make(map[string][]byte)for_,proxy:=rangethis.proxies{ifproxy.snapshotFn!=nil{proxySnapshots[proxy.name],err=proxy.snapshotFn()iferr!=nil{returnnil,err}}}returnproto.Marshal(&pb.SharedGroupSnapshot{ProxySnapshots:proxySnapshots})}"
+		}
+		if fd := funcDecl(sg, "sharedGroup", "processSnapshot"); fd != nil {
+			visits = strings.HasSuffix(norm(fd.Body), "forproxyName,proxySnapshot:=rangesnapshot.GetProxySnapshots(){proxy:=this.proxies[proxyName]iferr:=proxy.processSnapshotFn(proxySnapshot);err!=nil{returnerr}}returnnil}")
+		}
+		if fd := funcDecl(sg, "sharedGroup", "process"); fd != nil {
+			demux = strings.HasSuffix(norm(fd.Body), "ifproxy,exists:=this.proxies[proposal.GetProxyName()];exists{returnproxy.processFn(proposal.GetData())}returnnil}")
+		}
+		o.def("sharedSnapshotKeepsEmptySlots", "Bool", lbool(keeps), "sharedGroup.snapshot gives every consumer with a snapshot function a slot, whatever the length of its snapshot")
+		o.def("sharedRestoreVisitsEverySlot", "Bool", lbool(visits), "sharedGroup.processSnapshot hands every slot of the snapshot to the consumer it names")
+		o.def("sharedProcessByName", "Bool", lbool(demux), "sharedGroup.process hands an entry to the consumer its proposal names and to nobody else")
+
 		d := parseFile("storage/dataset.go")
 		nd := funcDecl(d, "", "newDataset")
 		shared := false
